@@ -598,6 +598,10 @@ func runC08(c *Ctx) {
 		}
 	}
 
+	c.Rule("C08-D11", "the reconnecting client's CONNECT can be encoded (F45): every value that can reach the `v` argument of (parser.Parser).Encode in the Socket.IO layer — through the wrappers' parameters, phis and locals — "+
+		"is nil, a pointer, or a struct sentinel; a map or slice by value is refused by the encoder, and the CONNECT that presents {pid, offset} was exactly that: with recovery enabled the Go client never reconnected", 3)
+	encoderArgumentsAccepted(c, "C08-D11")
+
 	c.Rule("C08-D5", "client offset bookkeeping: the CONNECT payload presents the stored pid and last offset; the pid is stored from the CONNECT reply and `recovered` set only when it equals the one presented; the values handed to a handler are exactly those decoded for it (no re-slicing between decode and call)", 6)
 	{
 		sc := p.Fn("sio", "clientSocket.sendConnectPacket")
